@@ -22,7 +22,25 @@ class InjectedBase(BaseException):
     pass
 
 
-EXC_TYPES = {"OSError": OSError, "ValueError": ValueError, "InjectedError": InjectedError, "InjectedBase": InjectedBase}
+def _hdf5_error():
+    import tables
+    return tables.HDF5ExtError
+
+
+class _Lazy(dict):
+    """exception classes by name; the I/O library's own error type is imported on first use"""
+
+    def __getitem__(self, k):
+        if k == "HDF5ExtError" and dict.__getitem__(self, k) is None:
+            dict.__setitem__(self, k, _hdf5_error())
+        return dict.__getitem__(self, k)
+
+    def values(self):
+        return [self[k] for k in self]
+
+
+EXC_TYPES = _Lazy({"OSError": OSError, "ValueError": ValueError, "InjectedError": InjectedError, "InjectedBase": InjectedBase,
+                   "HDF5ExtError": None})
 
 
 def reset(active=None):
